@@ -1,13 +1,23 @@
 (* family 8: PUS verification tracker (C16).
    A request id is six integers [ver; ptype; shf; apid; seq_flags; seq_count].
    A status is [recvd; accepted; started; step; completed; step_list...].
-   800  history: every argument is one call
-          [0; id6]                          add_tc (telecommand with that header)
-          [1; id6; sub; has_step; step]     add_tm (service-1 report)
-          [2; id6]                          remove_entry
-          [3]                               remove_completed_entries
-        result: per call  the return value  [0; bool] | [1] (None) | [2; completed; status] | [3; error]
-                followed by [n] and the n dictionary entries [key; status] in dictionary order.
+   800  history: every argument is one step; a trailing integer selects the construction path of
+        the object on the implementation side (PusTc(...), from_sp_header, from_composite_fields,
+        unpack, ...; RequestId(...), unpack, from_pus_tc, ...) and is ignored here: the model works on
+        the header fields
+          [0; id6; path]                          add_tc (telecommand with that header)
+          [1; id6; sub; has_step; step; path]     add_tm (service-1 report)
+          [2; id6; path]                          remove_entry
+          [3]                                     remove_completed_entries
+          [4; id6; what; value]                   the caller edits (setters) the telecommand object it
+                                                  registered with that header: not a tracker call
+        result: per step  the return value  [0; bool] | [1] (None) | [2; completed; status] | [3; error]
+                followed by [n] and the n dictionary entries [key; status] in dictionary order;
+                then [m] and, for each of the m results add_tm handed out, as it reads at the END of
+                the history: [completed; still the dictionary's status object (0/1); status];
+                then [0]: the number of (step, earlier result) pairs at which the completed flag or
+                the identity of the status object of an earlier result had changed (results are
+                fresh objects: never).
    801  one transition on a one-entry dictionary: a0 = status, a1 = [sub; has_step; step]
    850  Spec: table on (a0 = status, a1 = [sub; step]):  [1] (ValueError) | [0; completed; status]
    851  Spec: history on keys: a0 = keys to report; a1.. = [0; key] | [1; key; sub; step] | [2; key] | [3];
@@ -40,6 +50,15 @@ Definition vop_of (l : list Z) : vop :=
   | 2 :: id => RemoveEntry (reqid_of id)
   | _ => RemoveCompleted
   end.
+
+Definition hop_of (l : list Z) : hop :=
+  match l with
+  | 4 :: _ => HCallerEdit
+  | _ => HOp (vop_of l)
+  end.
+
+Definition kept_fields (r : kept) : list Z :=
+  b2z (k_completed r) :: b2z (k_live r) :: status_fields (k_status r).
 
 Definition vout_fields (o : vout) : list Z :=
   match o with
@@ -89,7 +108,9 @@ Fixpoint srun (keys : list Z) (m : tracker) (ops : list sop) : args :=
 
 Definition run_verif (op : Z) (a : args) : args :=
   match op with
-  | 800 => [0] :: flat_map obs_v (vrun [] (map vop_of a))
+  | 800 =>
+    let '(obs, _, kf) := hrun [] [] (map hop_of a) in
+    [0] :: flat_map obs_v obs ++ [Z.of_nat (length kf)] :: map kept_fields kf ++ [[0]]
   | 801 =>
     let id := [0; 1; 1; 5; 3; 7] in
     let d := [(reqid_as_u32 (reqid_of id), status_of (lst 0 a))] in
